@@ -20,9 +20,9 @@ import (
 func init() {
 	Register(&Check{
 		Spec: core.Spec{ID: "C03", Level: "exploration",
-			Rule:        "case = generated scenario (blocks of widely varied sizes, all compressions, escapes/unicode/large and precise numbers/raw JSON) queried by 16-48 concurrent queries under -race (+checkptr) with PRNG delays at the tagged query schedule points, so pooled scan buffers of one size class are recycled between queries while consumers retain rows. Every returned row is compared (reflect.DeepEqual) with the encoding/json round trip of the ingested row when encoding/json can decode it, and fingerprinted at receipt; then the harness deep-mutates half of the retained rows (every string, number, nested map and slice element overwritten) and checks that every other retained row, and a re-query of the same data, still equal their fingerprints/expectations. Every fourth case adds 2 blocks of 420-620 rows and an early-termination phase: consumers take 1-700 rows of a condition-less/prefilter-only/field query, then Close, cancel+drain, cancel+Close or Close late from another goroutine, later complete queries re-draw the pooled buffers, and every row a consumer kept must still equal its fingerprint and the round trip. non-trivial = query that returned >= 1 row while another query was in flight; distinct = distinct (scenario, query index)",
+			Rule:        "case = generated scenario (blocks of widely varied sizes, all compressions, escapes/unicode/large and precise numbers/raw JSON) queried by 16-48 concurrent queries under -race (+checkptr) with PRNG delays at the tagged query schedule points, so pooled scan buffers of one size class are recycled between queries while consumers retain rows. Every returned row is compared (reflect.DeepEqual) with the encoding/json round trip of the ingested row when encoding/json can decode it, and fingerprinted at receipt; then the harness deep-mutates half of the retained rows (every string, number, nested map and slice element overwritten) and checks that every other retained row, and a re-query of the same data, still equal their fingerprints/expectations. Every case also stores a run of 3-4 byte-identical rows whose arrays hold objects and arrays (rows derived from one another would share state below the array level). Every fourth case adds 2 blocks of 420-620 rows and an early-termination phase: consumers take 1-700 rows of a condition-less/prefilter-only/field query, then Close, cancel+drain, cancel+Close or Close late from another goroutine, later complete queries re-draw the pooled buffers, and every row a consumer kept must still equal its fingerprint and the round trip. non-trivial = query that returned >= 1 row while another query was in flight; distinct = distinct (scenario, query index)",
 			Assumptions: []string{"rows whose marshaled form encoding/json cannot decode into a generic map (e.g. 1e400) are compared by identity of their _vid only"},
-			Floors:      map[string]int64{"rows_compared": 5000, "rows_mutated": 1000, "concurrent_queries": 150, "early_terminated_queries": 12, "rows_kept_across_early_termination": 600}},
+			Floors:      map[string]int64{"rows_compared": 5000, "rows_mutated": 1000, "concurrent_queries": 150, "early_terminated_queries": 12, "rows_kept_across_early_termination": 600, "runs_of_identical_rows": 20}},
 		Cases:       func(t string) int { return nQueries(t, 24, 400) },
 		Run:         runC03,
 		RaceMatters: true,
@@ -151,6 +151,25 @@ func runC03(rc *RunCtx, i int) {
 			}
 		}
 		rc.Res.Count("cases_with_big_blocks", 1)
+	}
+	// A run of byte-identical rows (the same row ingested several times in one batch, as
+	// heartbeat-style logs do) whose arrays hold objects and arrays: if the engine derives one
+	// returned row from another, the shared parts sit below the array level.
+	{
+		tr := r.Split("twins")
+		twin := c.w.NewRowWith(tr, 0, func(row map[string]any) {
+			row["checks"] = []any{map[string]any{"name": "disk", "ok": true}, map[string]any{"name": "net", "peers": []any{"a", "b", map[string]any{"id": 1.0}}}}
+			row["codes"] = []any{[]any{200.0, 204.0}, []any{301.0}, []any{[]any{"deep"}}}
+		})
+		recs := []*world.RowRec{twin, twin, twin}
+		if tr.Bool() {
+			recs = append(recs, c.w.NewRow(tr, 0), twin)
+		}
+		if err := c.w.IngestSync(0, [][]*world.RowRec{recs}); err != nil {
+			rc.Violate(i, "scenario-failed", "", "twin rows: "+err.Error(), nil)
+			return
+		}
+		rc.Res.Count("runs_of_identical_rows", 1)
 	}
 	pm := installPoints(r.Split("points"), true, 400)
 	defer pm.uninstall(rc.Res)
